@@ -160,6 +160,19 @@ func Fail(t TB, test string, payload interface{}, format string, args ...interfa
 	t.Fatalf("%s", msg)
 }
 
+// FailNow records a failing case that cannot be continued past (a hang, a
+// lost lock), writes the shard's evidence and replay, and exits the process.
+func FailNow(test string, payload interface{}, msg string) {
+	mu.Lock()
+	failCount++
+	lastFail = &failure{Property: prop, Test: test, Message: msg, Payload: payload}
+	mu.Unlock()
+	fmt.Println("--- FAIL:", test)
+	fmt.Println(msg)
+	InFlightDone()
+	os.Exit(finish(1))
+}
+
 type shardEvidence struct {
 	Property    string           `json:"property"`
 	Evaluations int64            `json:"evaluations"`
